@@ -387,6 +387,7 @@ func main() {
 	r.Register("v4", func(a []string) string { return obsV4(lib.UnHex(a[0])) })
 	registerHunt(r)
 	registerTie(r)
+	registerGate(r)
 	if r.Replayed() {
 		return
 	}
@@ -396,6 +397,7 @@ func main() {
 		n = 20000
 	}
 	tieCases(r)
+	gateCases(r)
 	seen := map[string]bool{}
 	emit := func(class string, msg []byte) {
 		if hasXN(msg) {
